@@ -2,6 +2,12 @@
 import hashlib, json, os
 from core import Case
 import core
+import spec_networks as SN
+
+# the two frozen copies of the network specification (harness/spec_networks.py, coq/Model/SpecNetworks.v) must be in sync
+_sync = SN.selftest()
+if _sync is not None:
+    raise RuntimeError('frozen network specification out of sync: ' + _sync)
 
 PROP = 'C04'
 COQ_FILES = ['Extract/C04.v', 'Properties/C04.v']
@@ -12,6 +18,13 @@ ASSUMPTIONS = [
     'theorems are about coq/Model/KeyPoint.v and coq/Model/AddrEnc.v (lib_* mirrors keys.py Key.__init__ / get_key_format / '
     'public_uncompressed_hex / mod_sqrt / Key.address / HDKey.address / Address.__init__ and encoding.py to_bytes / '
     'pubkeyhash_to_addr*, as repaired by fixes/C04-1..4; spec_* is SEC 1, Base58Check, BIP141/173/341/350)',
+    'network table: Gen/GenNetworks.v is regenerated from /repo on every run AND proved equal (vm_compute, field by field: '
+    'Proofs/SpecNetworksGlue.v, theorem network_table_is_spec) to the frozen specification table coq/Model/SpecNetworks.v, '
+    'written from the reference clients (Bitcoin / Litecoin / Dogecoin Core chainparams, SLIP-0132, SLIP-0044, BIP173/350); the '
+    'property-level oracle uses the frozen Python twin harness/spec_networks.py (REFERENCE table), never /repo; fields marked '
+    'policy there (dust, fees, priority, currency code, the bitcoinlib_test row, dogecoin hrp) are library choices frozen at '
+    'their value of 2026-10-01; documented deviation of the library from the reference clients: the regtest row carries mainnet '
+    'version bytes (known class regtest_mainnet_version_bytes), dogecoin extended keys use xpub/xprv (not observable in C04)',
     'tie to /repo: (a) network prefixes (Gen/GenNetworks.v), curve constants and BECH32M_CONST (Gen/GenConsts.v) and the '
     'literals of mod_sqrt / public_uncompressed_hex (Gen/GenKeyConsts.v, read from the AST) are regenerated on every run; '
     '(b) differential correspondence of lib_key_import, lib_public_*, lib_key_address, lib_hdkey_address, lib_address, '
@@ -28,7 +41,10 @@ ASSUMPTIONS = [
 RULE = ('boundary scalars (1, 2, 3, n-1, n-2, (n+-1)/2, 2^k, 2^k-1, sparse), the refused set (0, n, n+1, 2n, 2^256-1, 2^256, -1), '
         'seeded random scalars; every import format of each scalar and every public encoding of each point through Key and HDKey; '
         'malformed public keys (off-curve x from x=5, x >= p, y not a root, wrong prefix/length); all networks x script types x '
-        'encodings x compressed argument; a case is non-trivial when the implementation returns a key/address; distinct by request')
+        'encodings x compressed argument; the full grid network (every row of the frozen table) x script type (p2pkh, p2sh, '
+        'p2sh_p2wpkh, p2sh_p2wsh, p2wpkh, p2wsh, p2tr, default) x encoding (base58, bech32, default) through Key.address, '
+        'HDKey.address, Address(data), Address(hashed_data) and against the extracted frozen specification (stdaddr); '
+        'a case is non-trivial when the implementation returns a key/address; distinct by request')
 
 # ---------------------------------------------------------------- independent oracle: curve (SEC 1 / SEC 2)
 P = 2 ** 256 - 2 ** 32 - 977
@@ -171,31 +187,29 @@ def taproot_output_key(pt):
     return None if q is None else q[0].to_bytes(32, 'big')
 
 
-_nets = None
-
-
-def nets():
-    global _nets
-    if _nets is None:
-        raw = json.load(open(os.path.join(core.REPO, 'bitcoinlib', 'data', 'networks.json')))
-        _nets = {k: (bytes.fromhex(v['prefix_address']), bytes.fromhex(v['prefix_address_p2sh']), v['prefix_bech32'])
-                 for k, v in raw.items()}
-    return _nets
+def nets(table=None):
+    """network -> (P2PKH version, P2SH version, hrp) from the FROZEN specification (harness/spec_networks.py), never from /repo"""
+    t = table or SN.REFERENCE
+    return {k: SN.address_prefixes(k, t) for k in t}
 
 
 STANDARD = {('p2pkh', 'base58'), ('p2sh_p2wpkh', 'base58'), ('p2wpkh', 'bech32'), ('p2wsh', 'bech32'), ('p2tr', 'bech32'),
-            ('p2sh', 'base58')}
+            ('p2sh', 'base58'), ('p2sh_p2wsh', 'base58')}
 
 
-def std_address(net, st, enc, data):
+def std_address(net, st, enc, data, table=None):
     """standard address of a public key (script for p2sh / p2wsh) or None when the combination has no standard form"""
-    pa, ps, hrp = nets()[net]
+    if net not in (table or SN.REFERENCE):
+        return None
+    pa, ps, hrp = SN.address_prefixes(net, table)
     if (st, enc) == ('p2pkh', 'base58'):
         return b58check(pa + h160(data))
     if (st, enc) == ('p2sh', 'base58'):
         return b58check(ps + h160(data))
     if (st, enc) == ('p2sh_p2wpkh', 'base58'):
         return b58check(ps + h160(b'\x00\x14' + h160(data)))
+    if (st, enc) == ('p2sh_p2wsh', 'base58'):
+        return b58check(ps + h160(b'\x00\x20' + sha256(data)))          # BIP141 P2WSH nested in P2SH
     if (st, enc) == ('p2wpkh', 'bech32'):
         return segwit_addr(hrp, 0, h160(data))
     if (st, enc) == ('p2wsh', 'bech32'):
@@ -207,12 +221,18 @@ def std_address(net, st, enc, data):
     return None
 
 
-def std_address_of_hash(net, st, enc, h):
-    pa, ps, hrp = nets()[net]
+def std_address_of_hash(net, st, enc, h, table=None):
+    if net not in (table or SN.REFERENCE):
+        return None
+    pa, ps, hrp = SN.address_prefixes(net, table)
     if (st, enc) == ('p2pkh', 'base58') and len(h) == 20:
         return b58check(pa + h)
     if (st, enc) == ('p2sh', 'base58') and len(h) == 20:
         return b58check(ps + h)
+    if (st, enc) == ('p2sh_p2wpkh', 'base58') and len(h) == 20:
+        return b58check(ps + h160(b'\x00\x14' + h))                     # P2SH of the witness program OP_0 <key hash>
+    if (st, enc) == ('p2sh_p2wsh', 'base58') and len(h) == 32:
+        return b58check(ps + h160(b'\x00\x20' + h))                     # P2SH of the witness program OP_0 <script hash>
     if (st, enc) == ('p2wpkh', 'bech32') and len(h) == 20:
         return segwit_addr(hrp, 0, h)
     if (st, enc) == ('p2wsh', 'bech32') and len(h) == 32:
@@ -275,6 +295,54 @@ def classify(fmt, arg, cparam):
     return ('oos',)
 
 
+def expect_address(t, table):
+    """what the property demands of an addr / address / stdaddr request, with the network constants of `table`:
+    ('none', None) no verdict here | ('refuse', text) the input is not a key: 'ERR import' is the only right answer |
+    ('exp', (label, address)) the standard encoding"""
+    if t[0] == 'addr':
+        entry, fmt, arg, cp, net, carg, st, enc = t[1:]
+        k = classify(fmt, arg, cp == '1')
+        if k[0] in ('oos', 'empty'):
+            return 'none', None
+        if k[0] == 'priv':
+            if not 1 <= k[1] < N:
+                return 'refuse', 'scalar outside [1, n-1], but the address'
+            pt = ec_mul(k[1])
+        else:
+            pt = k[1]
+            if pt is None:
+                return 'refuse', 'not a curve point, but the address'
+        use_c = k[2] if carg == 'N' else carg == '1'
+        e = enc if enc != 'N' else ('bech32' if entry == 'HDKey' else 'base58')
+        s = st if st != 'N' else ('p2wpkh' if (entry == 'HDKey' or e == 'bech32') else 'p2pkh')
+        if not use_c and (e == 'bech32' or s in ('p2sh_p2wpkh',)):
+            # segwit programs commit to compressed keys only (BIP143): refusing is right, anything else is not decided here
+            return 'none', None
+        exp = std_address(net, s, e, ser_c(pt) if use_c else ser_u(pt), table)
+        return ('none', None) if exp is None else ('exp', ('%s address of the key is' % s, exp))
+    if t[0] == 'address':
+        net, st, enc, witver, data, hashed = t[1:]
+        data, hashed = unhx(data), unhx(hashed)
+        if st == 'N' or enc == 'N' or (st, enc) not in STANDARD:
+            return 'none', None
+        if hashed:
+            if int(witver) != (1 if st == 'p2tr' else 0) and not (st == 'p2tr' and witver == '0'):
+                return 'none', None
+            exp = std_address_of_hash(net, st, enc, hashed, table)
+        elif data and int(witver) == 0:
+            exp = std_address(net, st, enc, data, table)
+        else:
+            return 'none', None
+        return ('none', None) if exp is None else ('exp', ('Address(...) gives', exp))
+    if t[0] == 'stdaddr':
+        net, st, enc, data = t[1:]
+        if (st, enc) not in STANDARD or not unhx(data):
+            return 'none', None
+        exp = std_address(net, st, enc, unhx(data), table)
+        return ('none', None) if exp is None else ('exp', ('Address(data) gives', exp))
+    return 'none', None
+
+
 def prop_check(c, out):
     t = c.req.split(' ')
     if out.startswith('CRASH') or out == 'BADREQ':
@@ -310,45 +378,13 @@ def prop_check(c, out):
             return None if out == 'ERR import' else 'not a key, but hash160 %s is returned' % out[:60]
         exp = h160(ser_c(pt) if k[2] else ser_u(pt)).hex()
         return None if out == exp else 'Key.hash160 = %s, RIPEMD160(SHA256(public key)) = %s' % (out[:60], exp)
-    if t[0] == 'addr':
-        entry, fmt, arg, cp, net, carg, st, enc = t[1:]
-        k = classify(fmt, arg, cp == '1')
-        if k[0] in ('oos', 'empty'):
+    if t[0] in ('addr', 'address', 'stdaddr'):
+        kind, val = expect_address(t, SN.REFERENCE)
+        if kind == 'none':
             return None
-        if k[0] == 'priv':
-            if not 1 <= k[1] < N:
-                return None if out == 'ERR import' else 'scalar outside [1, n-1] gives the address %s' % out[:90]
-            pt = ec_mul(k[1])
-        else:
-            pt = k[1]
-            if pt is None:
-                return None if out == 'ERR import' else 'not a curve point, but the address %s is returned' % out[:90]
-        use_c = k[2] if carg == 'N' else carg == '1'
-        e = enc if enc != 'N' else ('bech32' if entry == 'HDKey' else 'base58')
-        s = st if st != 'N' else ('p2wpkh' if (entry == 'HDKey' or e == 'bech32') else 'p2pkh')
-        if not use_c and (e == 'bech32' or s in ('p2sh_p2wpkh',)):
-            # segwit programs commit to compressed keys only (BIP143): refusing is right, anything else is not decided here
-            return None
-        exp = std_address(net, s, e, ser_c(pt) if use_c else ser_u(pt))
-        if exp is None:
-            return None
-        return None if out == exp else '%s address of the key is %s, the standard encoding is %s' % (s, out[:90], exp)
-    if t[0] == 'address':
-        net, st, enc, witver, data, hashed = t[1:]
-        data, hashed = unhx(data), unhx(hashed)
-        if st == 'N' or enc == 'N' or (st, enc) not in STANDARD:
-            return None
-        if hashed:
-            if int(witver) != (1 if st == 'p2tr' else 0) and not (st == 'p2tr' and witver == '0'):
-                return None
-            exp = std_address_of_hash(net, st, enc, hashed)
-        elif data and int(witver) == 0:
-            exp = std_address(net, st, enc, data)
-        else:
-            return None
-        if exp is None:
-            return None
-        return None if out == exp else 'Address(...) gives %s, the standard encoding is %s' % (out[:90], exp)
+        if kind == 'refuse':
+            return None if out == 'ERR import' else val + ' %s is returned' % out[:90]
+        return None if out == val[1] else '%s %s, the standard encoding is %s' % (val[0], out[:90], val[1])
     if t[0] == 'modsqrt':
         a = int(t[1])
         r = pow(a, (P + 1) // 4, P)
@@ -372,7 +408,24 @@ def _cls(c):
             return 'hash_ascii_hex'
         if t[2] == 'p2tr' and t[3] == 'bech32' and not unhx(t[6]):
             return 'p2tr_from_key_sha256'
+    if t[0] == 'stdaddr' and t[2] == 'p2tr' and t[3] == 'bech32':
+        return 'p2tr_from_key_sha256'
     return None
+
+
+def _documented_deviation(c, io):
+    """the answer is EXACTLY the encoding with the version bytes the library is pinned to (FROZEN table), on a network whose
+    address version bytes are a documented deviation from the reference client (regtest: mainnet 00 / 05 instead of 6f / c4);
+    any other answer on such a network is outside the class"""
+    t = c.req.split(' ')
+    if t[0] not in ('addr', 'address', 'stdaddr'):
+        return False
+    net = t[5] if t[0] == 'addr' else t[1]
+    if not (SN.deviates(net, 'prefix_address') or SN.deviates(net, 'prefix_address_p2sh') or SN.deviates(net, 'prefix_bech32')):
+        return False
+    kr, vr = expect_address(t, SN.REFERENCE)
+    kf, vf = expect_address(t, SN.FROZEN)
+    return kr == 'exp' and kf == 'exp' and vr[1] != vf[1] and io == vf[1]
 
 
 KNOWN_CLASSES = {
@@ -380,6 +433,7 @@ KNOWN_CLASSES = {
     'nonstrict_tolerated': lambda c, io, mo: _cls(c) == 'nonstrict_tolerated',
     'p2tr_from_key_sha256': lambda c, io, mo: _cls(c) == 'p2tr_from_key_sha256',
     'hash_ascii_hex': lambda c, io, mo: _cls(c) == 'hash_ascii_hex',
+    'regtest_mainnet_version_bytes': lambda c, io, mo: _cls(c) is None and _documented_deviation(c, io),
 }
 
 
@@ -398,9 +452,9 @@ def is_trivial(c, out):
 
 
 # ---------------------------------------------------------------- generators
-NETS = ['bitcoin', 'testnet', 'testnet4', 'signet', 'regtest', 'litecoin', 'litecoin_legacy', 'litecoin_testnet',
-        'dogecoin', 'dogecoin_testnet', 'bitcoinlib_test']
+NETS = list(SN.NETWORK_NAMES)          # every row of the frozen specification table
 STS = ['p2pkh', 'p2sh_p2wpkh', 'p2wpkh', 'p2wsh', 'p2tr']
+ALL_STS = ['p2pkh', 'p2sh', 'p2sh_p2wpkh', 'p2sh_p2wsh', 'p2wpkh', 'p2wsh', 'p2tr']
 ENCS = ['base58', 'bech32']
 
 
@@ -436,7 +490,7 @@ def import_cases(cs, fmt, arg, rng, nets_, entries=('Key', 'HDKey'), stricts=('1
 
 def gen_cases(rng, tier):
     big = tier == 'thorough'
-    nets_ = sorted(nets().keys())
+    nets_ = sorted(NETS)
     cs = []
     # ---- scalars
     edge = [1, 2, 3, N - 1, N - 2, (N + 1) // 2, (N - 1) // 2]
@@ -550,6 +604,27 @@ def gen_cases(rng, tier):
         cs.append(Case('addr_random', 'addr %s %s %s %s %s %s %s %s' % (
             rng.choice(['Key', 'HDKey']), fmt, arg, rng.choice('10'), rng.choice(nets_), rng.choice(['N', 'N', '1', '0']),
             rng.choice(STS + ['N', 'p2sh', 'p2sh_p2wsh']), rng.choice(ENCS + ['N']))))
+    # ---- every network x script type x encoding at least once through every entry point, and against the extracted
+    #      frozen specification table (stdaddr): a network row is never compared only with itself
+    for net in NETS:
+        for rep in range(4 if big else 1):
+            d = rng.choice(pool) if rep else (1 if net in ('bitcoin', 'dogecoin') else rng.choice(pool))
+            pt = ec_mul(d)
+            for st in ALL_STS + ['N']:
+                for enc in ENCS + ['N']:
+                    for entry in ('Key', 'HDKey'):
+                        cs.append(Case('net_grid_key', 'addr %s int %d 1 %s N %s %s' % (entry, d, net, st, enc)))
+                    cs.append(Case('net_grid_key', 'addr Key hex %s 1 %s N %s %s' % (ser_u(pt).hex(), net, st, enc)))
+                    cs.append(Case('net_grid_address', 'address %s %s %s 0 %s -' % (net, st, enc, ser_c(pt).hex())))
+                    for ln in (20, 32):
+                        h = bytes(rng.randrange(128, 256) for _ in range(ln))          # never reads as hexadecimal text
+                        cs.append(Case('net_grid_hash', 'address %s %s %s %d - %s' % (net, st, enc, 1 if st == 'p2tr' else 0, hx(h))))
+                    if (st, enc) in STANDARD and st != 'p2tr':
+                        cs.append(Case('net_grid_frozen', 'stdaddr %s %s %s %s' % (net, st, enc, ser_c(pt).hex())))
+                        if enc == 'base58' and st in ('p2pkh', 'p2sh', 'p2sh_p2wsh'):
+                            cs.append(Case('net_grid_frozen', 'stdaddr %s %s %s %s' % (net, st, enc, ser_u(pt).hex())))
+                            script = bytes([0x51 + rng.randrange(16)]) + bytes(rng.randrange(128, 256) for _ in range(rng.randrange(1, 70)))
+                            cs.append(Case('net_grid_frozen', 'stdaddr %s %s %s %s' % (net, st, enc, script.hex())))
     # addresses of non-keys must not exist
     for fmt, arg in (('int', str(N)), ('hex', '00' * 32), ('hex', '02' + '%064x' % 5), ('bytes', '03' + '%064x' % 5),
                      ('hex', '04' + '%064x%064x' % (1, 1)), ('point', '1,1'), ('hex', '02' + '%064x' % (P + 1)), ('int', '0')):
@@ -579,3 +654,26 @@ def gen_cases(rng, tier):
     for a in list(range(0, 200)) + [P - 1, P, P + 1, P + 4] + [rng.randrange(1 << 256) for _ in range(5000 if big else 500)]:
         cs.append(Case('modsqrt', 'modsqrt %d' % a))
     return cs
+
+
+# ---------------------------------------------------------------- flow
+def main(tier, seed, replay):
+    """standard flow.  One refinement: when networks.json of the tree under test differs from the frozen specification, the
+    proof obligation network_table_is_spec breaks and core would widen the search to the thorough tier (~45 min here) although
+    the net_grid_* / addr_grid / address_hash streams of the requested tier already reach every network x script type x
+    encoding; the requested tier is kept in that case and the differing (network, field) pairs are put into the notes.
+    The comparison below is a DIAGNOSTIC read of the tree (it selects the search effort and words a note); no oracle uses it."""
+    import sys, types
+    mod = sys.modules[__name__]
+    try:
+        diff = SN.diff_repo(core.REPO)
+    except Exception as ex:           # unreadable / malformed table: let the standard flow deal with it
+        diff = []
+    if not diff:
+        return core.standard_check(mod, tier, seed, replay)
+    proxy = types.SimpleNamespace(**{k: getattr(mod, k) for k in dir(mod) if not k.startswith('__') and k != 'main'})
+    proxy.gen_cases = lambda rng, t: gen_cases(rng, tier)
+    what = '; '.join('%s.%s = %s (frozen specification: %s)' % (n, f, json.dumps(g)[:80], json.dumps(w)[:80]) for n, f, g, w in diff[:8])
+    proxy.ASSUMPTIONS = ASSUMPTIONS + ['THIS RUN: bitcoinlib/data/networks.json differs from the frozen specification table in ' + what]
+    print('note: networks.json differs from the frozen specification: ' + what, flush=True)
+    return core.standard_check(proxy, tier, seed, replay)
